@@ -35,10 +35,17 @@ def init (ps : List String) : Option St :=
 
 def exactKind (k : String) : Bool := k == "flat" || k == "ivf" || k == "hnsw"
 
-/-- all five outcomes equal `want` -/
+/-- all five kinds agree with `want` on success / failure.  Which error a kind reports (and in
+    which words) is not part of the property: `sameOutcome` in Proto.lean. -/
 def allOutcomes (post : List String) (want : String) : Bool :=
   post.length == 5 && post.all fun t => match t.splitOn ":" with
-    | [_, o] => o == want | _ => false
+    | [_, o] => sameOutcome o want | _ => false
+
+/-- informational: the distinct error classes the harness attached to the five outcomes -/
+def classFlags (post : List String) : String :=
+  let cs := (post.filterMap fun t => match t.splitOn ":" with
+    | [_, o] => if o == "ok" then none else some o | _ => none).eraseDups
+  String.join (cs.map fun c => " " ++ classFlag c)
 
 /-- split a token list at ";" -/
 def splitSemi (toks : List String) : List (List String) :=
@@ -68,7 +75,7 @@ def op (st : St) (toks : List String) : St × String :=
         | some v' => { st with live := st.live ++ [(id, v')],
                                tomb := if st.tomb.contains id then [] else st.tomb }
         | none => st
-      if allOutcomes post want then (st', if want == "ok" then "ok" else "ok rejected=1")
+      if allOutcomes post want then (st', if want == "ok" then "ok" else "ok rejected=1" ++ classFlags post)
       else (st', s!"SPECFAIL add: expected {want} from every kind, got {post}")
     | _, _ => (st, "BADOP add")
   | ["remove", id] =>
@@ -77,13 +84,11 @@ def op (st : St) (toks : List String) : St × String :=
       let isLive := st.live.any (·.1 == id)
       let want := if isLive then "ok" else if st.tomb.contains id then "deleted" else "notfound"
       let st' := if isLive then { st with live := st.live.filter (·.1 != id), tomb := id :: st.tomb } else st
-      -- a rejected Remove must be an error in every kind; whether it reads "already deleted" or
-      -- "not found" depends on when the kind purged its tombstones (HNSW also purges when a new
-      -- vertex meets a soft-deleted entry point) and is not part of the property
-      let rejectedOk := post.length == 5 && post.all fun t => match t.splitOn ":" with
-        | [_, o] => o == "deleted" || o == "notfound" | _ => false
-      if allOutcomes post want || (want != "ok" && rejectedOk) then
-        (st', if want == "ok" then "ok removed=1" else "ok rejected=1")
+      -- a rejected Remove must be an error in every kind; which error (it depends on when the kind
+      -- purged its tombstones: HNSW also purges when a new vertex meets a soft-deleted entry
+      -- point) and in which words is not part of the property
+      if allOutcomes post want then
+        (st', if want == "ok" then "ok removed=1" else "ok rejected=1" ++ classFlags post)
       else (st', s!"SPECFAIL remove: expected {want} from every kind, got {post}")
     | none => (st, "BADOP remove")
   | ["flush"] =>
@@ -95,7 +100,7 @@ def op (st : St) (toks : List String) : St × String :=
       let wantErr : Option String := if q.size ≠ st.dim then some "dim" else
         match m.pre q with | none => some "zero" | some _ => none
       match post, wantErr, m.pre q with
-      | ["err", e], some w, _ => if e == w then (st, "ok err") else (st, s!"DIFF search error class want={w} got={e}")
+      | ["err", e], some _, _ => (st, agreedErr e)   -- an invalid query must fail; with which error is free
       | ["err", e], none, _ => (st, s!"SPECFAIL search[{kind}] failed ({e}) on a valid query")
       | "ok" :: hits, some w, _ =>
         -- an empty answer to an invalid query is vacuously sound (HNSW / PQ return early on an empty index)
